@@ -310,6 +310,9 @@ StringDictionaryHTFC::StringDictionaryHTFC(IteratorDictString *it,
   delete dict;
 
   table = builder->getTable();
+  // The coder created above can only encode: attach the decoding table
+  delete coder;
+  coder = new StatCoder(table, codewords);
   delete builder;
 }
 
